@@ -518,6 +518,7 @@ import pickle as _pickle_spec  # constants of the reader's side only; nothing is
 
 SPEC_CONSTANTS = {"sys.builtin_module_names": __import__("sys").builtin_module_names, "sys.stdlib_module_names": __import__("sys").stdlib_module_names, "pickle.HIGHEST_PROTOCOL": _pickle_spec.HIGHEST_PROTOCOL, "pickle.DEFAULT_PROTOCOL": _pickle_spec.DEFAULT_PROTOCOL, "sys.maxsize": __import__("sys").maxsize, "sys.byteorder": __import__("sys").byteorder}
 # pickletools' documented integer constants (argument-size markers) and pickle's opcode byte constants
+SPEC_CALLABLES["sys.getrecursionlimit"] = _Spec(lambda: 1000, "sys.getrecursionlimit")  # CPython's default: what a fresh process answers
 SPEC_CONSTANTS.update({f"pickletools.{k}": v for k, v in vars(__import__("pickletools")).items() if k.isupper() and isinstance(v, int)})
 SPEC_CONSTANTS.update({f"pickle.{k}": v for k, v in vars(_pickle_spec).items() if k.isupper() and isinstance(v, bytes) and len(v) == 1})
 _BUILTIN_SPECS = {
@@ -1519,6 +1520,26 @@ class OEvaluator(Evaluator):
             self.ev(st.value)
             return
         if isinstance(st, ast.Pass):
+            return
+        if isinstance(st, (ast.Import, ast.ImportFrom)):
+            # a function-level import binds local names to what the same import at module level would bind
+            for a in st.names:
+                if isinstance(st, ast.Import):
+                    local = a.asname or a.name.split(".")[0]
+                    q = a.name if a.asname else a.name.split(".")[0]
+                else:
+                    if st.level or a.name == "*":
+                        raise Unsupported("relative / star import inside a function")
+                    local = a.asname or a.name
+                    q = f"{st.module}.{a.name}"
+                shadow = Module.__new__(Module)
+                shadow.__dict__.update(self.module.__dict__)
+                shadow.imports = dict(self.module.imports)
+                shadow.imports[local] = q
+                v = self.oe._module_global_rest(shadow, local)
+                if v is _MISSING:
+                    raise Unsupported(f"import of {q} inside a function")
+                self.env[local] = v
             return
         if isinstance(st, ast.Global):
             gl = self.__dict__.setdefault("globals_declared", set())
